@@ -304,7 +304,8 @@ pub fn dispatch(mode: &str, f: &[Vec<u8>]) -> Option<R> {
             Err(_) => return None,
         },
         // content stream bytes -> canonical operation list
-        "ops_parse" => parse_ops(fld(f, 0), &NoResolve).map(|ops| encode_ops(&ops)).map_err(|e| ekind(&e)),
+        // ops_parse_bytes: the same call; the model of this mode reads the bytes itself (Content/Bytes.v)
+        "ops_parse" | "ops_parse_bytes" => parse_ops(fld(f, 0), &NoResolve).map(|ops| encode_ops(&ops)).map_err(|e| ekind(&e)),
         // canonical operation list -> serialize_ops -> parse_ops -> canonical operation list
         "ops_roundtrip" => match decode_ops(f) {
             Ok(ops) => serialize_ops(&ops).and_then(|v| parse_ops(&v, &NoResolve)).map(|ops| encode_ops(&ops)).map_err(|e| ekind(&e)),
